@@ -9,7 +9,12 @@ reply: `<labels>|<st:res:msgs:holds:pc per thread, ';'>|clock=<n>;lock=<0|1>;pro
 `srun a b d x <session0> <n> <events>`  session machine: 0/1 flagOnInstance lockNeedsSession unlockNeedsSession
                               sessionReqExcluded, initial session 0/1, number of requests, events `a<i>` (acquire) `f<i>` (end)
                               `E` (end-session) `B` (begin-session) `R` (restore) or `-`
-reply: `<outcome per event, ','>|flag=<0|1>;holders=<n>` -/
+reply: `<outcome per event, ','>|flag=<0|1>;holders=<n>`
+`crun a b d x <session0> <n> <events>`  session clock machine: events as for srun plus `r<i>` (run_step reads the clock)
+                              `w<i>` (run_step writes); reply: `<epoch.time per log entry, ';'>|clock=<n>;epoch=<n>;session=<0|1>`
+`gclose <tokens>`             generator shape: comma list of y u o r T X1 X0 F E C1 C0 D1 D0 (yield unlock other return try
+                              except(catches GeneratorExit 1/0) finally endtry cond-begin(loop 1/0) cond-end(loop 1/0))
+reply: `<k:unlocked:stuck per yield index k, ';'>|safe=<0|1>` -/
 open Bptk.C18
 
 def parseKind (s : String) : Option Kind :=
@@ -48,6 +53,19 @@ def parseSEv (s : String) : Option Sess.SEv :=
   else if s.startsWith "f" then (s.drop 1).toNat?.map .fin
   else none
 
+def parseCEv (s : String) : Option Sess.CEv :=
+  if s.startsWith "r" then (s.drop 1).toNat?.map .rd
+  else if s.startsWith "w" then (s.drop 1).toNat?.map .wr
+  else (parseSEv s).map .sess
+
+def parseTok (s : String) : Option Gen.Tok :=
+  match s with
+  | "y" => some .yld | "u" => some .unlock | "o" => some .other | "r" => some .ret
+  | "T" => some .tryB | "X1" => some (.exceptB true) | "X0" => some (.exceptB false) | "F" => some .finallyB
+  | "E" => some .endTry | "C1" => some (.condB true) | "C0" => some (.condB false)
+  | "D1" => some (.endCond true) | "D0" => some (.endCond false)
+  | _ => none
+
 def stepLine (c : Cfg) (line : String) : Cfg × String :=
   match line.trimAscii.toString.splitOn " " with
   | ["cfg", a, b, d, e, f, g] =>
@@ -61,6 +79,22 @@ def stepLine (c : Cfg) (line : String) : Cfg × String :=
           let r := Sess.strace ⟨a, b, d, x⟩ evs (Sess.SState.init s0 n)
           (c, ",".intercalate r.2 ++ s!"|flag={if r.1.flag then 1 else 0};holders={Sess.holders r.1}")
       | _, _, _, _, _, _, _ => (c, "bad-op")
+  | ["crun", a, b, d, x, s0, n, evs] =>
+      match b01 a, b01 b, b01 d, b01 x, b01 s0, n.toNat?,
+            (if evs == "-" then some [] else (evs.splitOn ",").mapM parseCEv) with
+      | some a, some b, some d, some x, some s0, some n, some evs =>
+          let r := Sess.crun ⟨a, b, d, x⟩ (Sess.CState.init s0 n) evs
+          (c, ";".intercalate (r.log.map (fun p => s!"{p.1}.{p.2}")) ++
+              s!"|clock={r.clock};epoch={r.epoch};session={if r.base.session then 1 else 0}")
+      | _, _, _, _, _, _, _ => (c, "bad-op")
+  | ["gclose", toks] =>
+      match (toks.splitOn ",").mapM parseTok with
+      | some prog =>
+          let b := fun (x : Bool) => if x then "1" else "0"
+          (c, ";".intercalate ((Gen.yieldIdx prog).map (fun k =>
+                s!"{k}:{b (Gen.closeAt prog k).unlocked}:{b (Gen.closeAt prog k).stuck}")) ++
+              s!"|safe={b (Gen.closeSafe prog)}")
+      | none => (c, "bad-op")
   | ["run", stop, kinds, sched] =>
       match stop.toNat?, (kinds.splitOn ",").mapM parseKind,
             (if sched == "-" then some [] else (sched.splitOn ",").mapM parseAct) with
